@@ -18,7 +18,7 @@ def main() -> int:
     boot.boot()
     from vlib.rec import Rec
 
-    spec = json.loads(Path(specf).read_text())
+    spec = json.loads(Path(specf).read_text(encoding='utf-8'))
     mod = importlib.import_module(f'checks.{prop.lower()}')
     rec = Rec(prop)
     try:
@@ -27,7 +27,7 @@ def main() -> int:
         tb = traceback.format_exc()
         rec.inconc(f'harness error in shard {spec.get("shard")}: {type(e).__name__}: '
                    f'{str(e)[:300]} :: {tb[-900:]}')
-    Path(outf).write_text(json.dumps(rec.result(), default=str))
+    Path(outf).write_text(json.dumps(rec.result(), default=str), encoding='utf-8')
     return 0
 
 
